@@ -675,3 +675,63 @@ def standard_samplers(ctx):
         ctx.oblige(f"C05/{cname}._sample/post/sample_has_the_distribution_shape", shp is shape, [], props, kind="struct", fn=q, replay=dict(kind="c05", vars={}))
         if cname == "_StandardStudentT":
             ctx.oblige("C05/_StandardStudentT._sample/post/uses_its_degrees_of_freedom", bool(rec) and rec[0][3].get("df", None) == "df", [], props, kind="struct", fn=q)
+
+
+@family("bijection/_VectorizedBijection", ["C06", "C11"])
+def vectorized_bijection(ctx):
+    """bijection._vectorize.<method>: jnp.vectorize of the child's method OF THE SAME NAME with core shapes (shape[, cond_shape]) ->
+    (shape[, ()]), the condition excluded iff the bijection is unconditional (C06: batched == elementwise unbatched); it is what
+    BijectionReparam applies to a parameter array (C11)"""
+    it = ctx.interp
+    props = ["C06", "C11"]
+    BQ = "flowjax.bijections.bijection"
+    q = f"{BQ}._VectorizedBijection"
+    cls = it.repo_class(q)
+    rec = {}
+    it.global_overrides[BQ] = {"_get_ufunc_signature": lambda i, o: ("sig", tuple(i), tuple(o))}
+
+    def vectorize(f, signature=None, excluded=frozenset()):
+        rec.update(f=f, signature=signature, excluded=excluded)
+        return lambda *a, **k: ("vectorized_call", f, a, k)
+
+    it.lib.overrides["jax.numpy.vectorize"] = vectorize
+    S = (SV(z3.Int("dim_s0")), SV(z3.Int("dim_s1")))
+    configs = (("conditional", (SV(z3.Int("dim_c0")),)), ("unconditional", None), ("conditional_scalar", ()), ("scalar_event_conditional", (SV(z3.Int("dim_c0")),)))
+
+    class Child:
+        def __init__(self, shape, cond_shape):
+            self.shape, self.cond_shape = shape, cond_shape
+
+        def transform(self, *a, **k):
+            return "t"
+
+        def inverse(self, *a, **k):
+            return "i"
+
+        def transform_and_log_det(self, *a, **k):
+            return "tl"
+
+        def inverse_and_log_det(self, *a, **k):
+            return "il"
+
+    for cname, cs in configs:
+        shape = () if cname.startswith("scalar_event") else S
+        child = Child(shape, cs)
+        self = Obj(cls, bijection=child)
+        for mname, with_ld in (("transform", False), ("inverse", False), ("transform_and_log_det", True), ("inverse_and_log_det", True)):
+            rec.clear()
+            fnq = f"{q}.{mname}"
+            p = single(it.explore(lambda: method(cls, mname)(self, "x", "cond")), ctx, f"C06/_VectorizedBijection.{mname}[{cname}]/struct/straight_line", props, fnq)
+            if p is None:
+                continue
+            rp = dict(kind="c06", vars={})
+            want_in = [shape] + ([cs] if cs is not None else [])
+            want_out = [shape] + ([()] if with_ld else [])
+            ctx.oblige(f"C06/_VectorizedBijection.{mname}[{cname}]/post/core_shapes", rec.get("signature") == ("sig", tuple(want_in), tuple(want_out)), [], props, kind="struct", fn=fnq, replay=rp, note=f"signature {rec.get('signature')}")
+            ctx.oblige(f"C06/_VectorizedBijection.{mname}[{cname}]/post/condition_excluded_iff_unconditional", rec.get("excluded") == (frozenset() if cs is not None else frozenset([1])), [], props, kind="struct", fn=fnq, replay=rp)
+            f = rec.get("f")
+            same = getattr(f, "__func__", None) is getattr(Child, mname) and getattr(f, "__self__", None) is child
+            ctx.oblige(f"C06/_VectorizedBijection.{mname}[{cname}]/post/vectorises_the_childs_method_of_the_same_name", bool(same), [], props, kind="struct", fn=fnq, replay=rp)
+            v = p.value
+            okcall = isinstance(v, tuple) and v[0] == "vectorized_call" and v[2] == ("x", "cond") and not v[3]
+            ctx.oblige(f"C06/_VectorizedBijection.{mname}[{cname}]/post/applied_to_x_and_condition", bool(okcall), [], props, kind="struct", fn=fnq, replay=rp)
